@@ -125,3 +125,42 @@ End PE.
 
 Definition pends_cs (cls_b : cp -> cp -> bool) := pends lit_cs cls_b range_cs.
 Definition find_first_cs (cls_b : cp -> cp -> bool) := find_first lit_cs cls_b range_cs.
+
+(* ---------------------------------------------------------------------------------------- *)
+(* `Regex::find_iter(h).count()`: successive non-overlapping leftmost-first matches
+   (regex-automata util::iter::Searcher::advance): search from `start` with the whole haystack as
+   context; an EMPTY match that ends where the previous match ended is not reported -- the search
+   is repeated one position further; the next search starts at the end of the reported match. *)
+Section FindIter.
+  Variable lit_b : cp -> cp -> bool.
+  Variable cls_b : cp -> cp -> bool.
+  Variable range_b : cp -> cp -> cp -> bool.
+
+  Definition search_from (h : str) (r : rast) (start : nat) : option (nat * nat) :=
+    if Nat.ltb (length h) start then None
+    else pfind_from lit_b cls_b range_b h r (length h - start) start.
+
+  Definition opt_nat_eqb (a : option nat) (b : nat) : bool :=
+    match a with Some x => Nat.eqb x b | None => false end.
+
+  Fixpoint fi_count (fuel : nat) (h : str) (r : rast) (start : nat) (last : option nat) : nat :=
+    match fuel with
+    | O => 0
+    | S f =>
+        match search_from h r start with
+        | None => 0
+        | Some (s, e) =>
+            if Nat.eqb s e && opt_nat_eqb last e then
+              match search_from h r (S start) with
+              | None => 0
+              | Some (_, e') => S (fi_count f h r e' (Some e'))
+              end
+            else S (fi_count f h r e (Some e))
+        end
+    end.
+
+  (* every reported match moves `start` forward or is the one empty match allowed at `start`:
+     at most 2 * (length h + 1) matches *)
+  Definition find_iter_count (h : str) (r : rast) : nat :=
+    fi_count (2 * length h + 3) h r 0 None.
+End FindIter.
